@@ -49,6 +49,15 @@ REGISTRY['C15'] = {
     'design_ref': 'DESIGN.md section 5 / C15',
     'not_covered': ['TrustAnchorSigner::process_signer_request (by-value HashMap loop)', 'TrustAnchorProxy::apply arm SignerResponseReceived (by-value HashMap loops)', 'manifest/CRL numbers only increase across re-initialisation histories'],
 }
+REGISTRY['C17'] = {
+    'v': ['c17_validate'],
+    'k': ['k_bgp_prefix', 'k_bgp_analyser'],
+    'level_text': 'Validation core: validate agrees with RFC 6811 for covering lists of any length and both families (Verus, unbounded, generic over RoutePrefix); the RoutePrefix implementations equal their bit-level meaning over the full domain (Kani, complete). validate_set, categorise_roa and the prefix tree are bounded stand-ins (thorough tier).',
+    'level_note': 'Harness inputs satisfy the prefix type invariant; suggestion post-processing over large sets not decided.',
+    'technique': 'Verus contracts on extracted real text + Kani full-domain harnesses on the real crate',
+    'design_ref': 'DESIGN.md section 5 / C17',
+    'not_covered': ['suggestion post-processing over large sets'],
+}
 REGISTRY['C16'] = {
     'v': [],
     'k': ['k_api_roa'],
